@@ -18,6 +18,7 @@ mod streams;
 mod pool;
 mod server;
 mod tls;
+mod srvk;
 
 use std::io::{BufRead, Write};
 
@@ -26,6 +27,7 @@ fn gen(stream: &str, seed: u64, n: u64) -> Vec<String> {
         "sniff-exhaustive" => return sniff::exhaustive(),
         "eb-exhaustive" => return eyeballs::exhaustive(),
         "tls-exhaustive" => return tls::exhaustive(),
+        "srvk-exhaustive" => return srvk::exhaustive(),
         _ => {}
     }
     let mut rng = rng::Rng::new(seed ^ fxhash(stream));
@@ -43,6 +45,7 @@ fn gen(stream: &str, seed: u64, n: u64) -> Vec<String> {
                 "pool" => pool::gen(&mut r, i),
                 "srv" => server::gen(&mut r, i),
                 "tls" => tls::gen(&mut r, i),
+                "srvk" => srvk::gen(&mut r, i),
                 "poolt" => { let b = pool::gen_timed(&mut r, i); if b.starts_with('X') { b } else { format!("X{b}") } }
                 _ => panic!("unknown stream {stream}"),
             };
@@ -71,6 +74,7 @@ fn run_line(line: &str) -> String {
         "pool" => pool::run(&toks),
         "srv" => server::run(&toks),
         "tls" => tls::run(&toks),
+        "srvk" => srvk::run(&toks),
         _ => "unknown-stream".to_string(),
     };
     format!("{input} | {obs}")
